@@ -196,10 +196,16 @@ _MASKS = [
 ]
 
 
+# computed fields (otConverters.ComputedInt: counts, struct lengths) are dumped as a comment line
+# '<!-- XCount=n -->' when set; compile() recomputes them and some preWrite()s reset them on the object
+# (e.g. COLR.preWrite sets LayerRecordCount = None), so they are derived data, not content
+_COMPUTED = re.compile(rb"^[ \t]*<!-- \w+=-?\d+ -->[ \t]*\r?\n", re.M)
+
+
 def _mask(xml):
     for r in _MASKS:
         xml = r.sub(b"<masked/>", xml)
-    return xml
+    return _COMPUTED.sub(b"", xml)
 
 
 def _dump(f):
